@@ -18,6 +18,7 @@ Template directives (each on its own line, introduced by `//@@`):
   //@@ check-struct file=<path> name=<T> fields="a: A, b: B" [drop="c, d"]
   //@@ check-enum   file=<path> name=<T> variants="A, B, C"
   //@@ include <relative file>
+  //@@ consts file=<path>                                  (copies the module-level `const` items of the file)
 
 Between `fn|slice` and `end`, the engine emits:   <signature> <contract> { <pre> <body> }
 where signature and body are copied from the snapshot.  Everything else in the template is
@@ -157,6 +158,25 @@ class Gen:
                         sub = [re.sub(r"(//\s*@ob\s+)", r"\g<1>" + pre + "/", l) for l in sub]
                 out.extend(sub)
                 i += 1
+            elif head == "consts":
+                kv = parse_kv(rest)
+                csrc, cmasked = self.src(kv["file"])
+                depth = 0
+                k = 0
+                while k < len(cmasked):
+                    ch = cmasked[k]
+                    if ch == "{":
+                        depth += 1
+                    elif ch == "}":
+                        depth -= 1
+                    elif depth == 0 and cmasked.startswith("const ", k) and (k == 0 or not (cmasked[k - 1].isalnum() or cmasked[k - 1] == "_")):
+                        e = cmasked.find(";", k)
+                        item = csrc[k:e + 1]
+                        if re.match(r"const\s+[A-Z_][A-Z0-9_]*\s*:", item):
+                            out.append("pub " + item + "   // module-level constant copied from " + kv["file"])
+                        k = e
+                    k += 1
+                i += 1
             elif head == "check-struct" or head == "check-enum":
                 self.check_type(head, parse_kv(rest))
                 i += 1
@@ -251,8 +271,21 @@ class Gen:
         else:
             # slice of the function body
             b0 = f["body_open"] + 1
-            mb = masked[b0:f["body_close"]]
-            sb = src[b0:f["body_close"]]
+            bend = f["body_close"]
+            for wkey in ("within", "within2"):
+                if wkey in kv:
+                    # narrow to the inside of the block that follows this anchor
+                    wpat = re.compile(kv[wkey].strip("/"), re.S | re.M)
+                    wm = list(wpat.finditer(masked, b0, bend))
+                    if len(wm) != 1:
+                        raise ExtractError("%s: %s anchor /%s/ matched %d times" % (where, wkey, wpat.pattern, len(wm)))
+                    k = masked.find("{", wm[0].end() - 1 if masked[wm[0].end() - 1] == "{" else wm[0].end(), bend)
+                    if k < 0:
+                        raise ExtractError("%s: no block after %s anchor" % (where, wkey))
+                    bend = rsx.match_brace(masked, k)
+                    b0 = k + 1
+            mb = masked[b0:bend]
+            sb = src[b0:bend]
             if "block" in kv:
                 pat = re.compile(kv["block"].strip("/"), re.S)
                 ms = list(pat.finditer(mb))
